@@ -70,6 +70,9 @@ func (m *Once) Event(c *vnet.Cluster, e *vnet.Event) {
 			m.auditFresh(c, n)
 		}
 	case vnet.KAPIRet:
+		if e.API == "OnReceive" && e.P != nil && d.Validators != nil {
+			m.checkCached(c, n, e.P)
+		}
 		if e.API == "Reset" || e.API == "Start" {
 			s.inReset = false
 			m.auditAfterReset(c, n)
@@ -116,6 +119,43 @@ func (m *Once) Event(c *vnet.Cluster, e *vnet.Event) {
 	}
 }
 
+// checkCached: a payload for a future height (or a future view of the current
+// height) must be kept for later - also between a decision and the next Reset.
+func (m *Once) checkCached(c *vnet.Cluster, n *vnet.Node, p *vnet.Payload) {
+	d := n.D
+	if int(p.Idx) >= len(d.Validators) {
+		return
+	}
+	box := -1
+	switch p.T {
+	case dbft.PrepareRequestType, dbft.PrepareResponseType:
+		box = 0
+	case dbft.ChangeViewType:
+		box = 1
+	case dbft.PreCommitType:
+		box = 2
+	case dbft.CommitType:
+		box = 3
+	default:
+		return
+	}
+	future := p.Hgt > d.BlockIndex || (p.Hgt == d.BlockIndex && p.View > d.ViewNumber && p.T != dbft.ChangeViewType)
+	if !future {
+		return
+	}
+	m.inc("future-payloads-checked")
+	if d.BlockSent() {
+		m.inc("future-payloads-while-decided")
+	}
+	boxes, ok := d.VerifCache()[p.Hgt]
+	if ok {
+		if q := payloadOf(boxes[box][p.Idx]); q != nil && q.Hash() == p.Hash() {
+			return
+		}
+	}
+	m.fail(c, "future-payload-not-kept", "n%d at (%d,%d, decided=%v) did not keep [%s] for later", n.ID, d.BlockIndex, d.ViewNumber, d.BlockSent(), p.Short())
+}
+
 // auditFresh checks the state right after Context.reset of a Reset/Start.
 func (m *Once) auditFresh(c *vnet.Cluster, n *vnet.Node) {
 	d := n.D
@@ -144,6 +184,9 @@ func (m *Once) auditFresh(c *vnet.Cluster, n *vnet.Node) {
 	}
 	if want := c.ValidatorIndex(d.BlockIndex, n.ID); d.MyIndex != want {
 		bad(fmt.Sprintf("MyIndex=%d, expected %d", d.MyIndex, want))
+	}
+	if d.N() != len(ids) || d.F() != fOf(len(ids)) || d.M() != mOf(len(ids)) {
+		bad(fmt.Sprintf("N/F/M = %d/%d/%d for %d validators", d.N(), d.F(), d.M(), len(ids)))
 	}
 	if want := primaryOf(d.BlockIndex, 0, len(ids)); int(d.PrimaryIndex) != want {
 		bad(fmt.Sprintf("PrimaryIndex=%d, expected %d", d.PrimaryIndex, want))
